@@ -140,7 +140,7 @@ PROPS = {
                 "loss bursts of length 1..10 on requests or on responses in 3/4 of the runs (bursts of 7 and more only in 1/5 of those), idle gaps of 1 h..5 d between attempts in 1/3 of the runs "
                 "(server key renewal and retirement, cookies expiring, re-keying); every request and reply on the wire is parsed by the harness's own RFC 8915 field walker and authenticated independently with miscreant; "
                 "non-trivial = at least two successful exchanges; distinct = distinct event-log hash",
-        "required_probes": ["exchange-ok", "exchange-ok:ip", "exchange-ok:scion", "reply-verified", "re-keyed", "pool-restored", "request-at-level-8", "request-at-level-5", "recovered-after-server-restart", "request-at-level-1", "server-busy-while-client-idle", "nts-over-packet-authentication"],
+        "required_probes": ["exchange-ok", "exchange-ok:ip", "exchange-ok:scion", "reply-verified", "re-keyed", "pool-restored", "request-at-level-8", "request-at-level-5", "recovered-after-server-restart", "request-at-level-1", "server-busy-while-client-idle", "nts-over-packet-authentication", "failed-on-timestamps-with-duplicated-reply"],
         "components": {"real": ["net/ntske Fetcher (FetchData, StoreCookie), Provider, cookies", "net/nts NewRequestPacket, EncodePacket, DecodePacket, ProcessRequest/Response, NewResponsePacket",
                                 "core/server runIPServer, runSCIONServer (authenticated branches), handleKeyExchangeTLS", "core/client IPClient, SCIONClient", "crypto/tls"],
                        "stub": dict(STUBS_COMMON, **{"kernel UDP/TCP": "simnet", "SCION border routers": "one relay router", "NTS-KE transport of the SCION client": "TLS on simulated TCP (production wiring: QUIC over SCION, not simulated)"})},
